@@ -1066,6 +1066,23 @@ func ruleCallback(c *Ctx) []Obligation {
 				continue
 			}
 			key := fmt.Sprintf("callback parameter %d (%s)", pi, types.TypeString(p.Type(), shortQual))
+			// internal plumbing: a parameter that only ever receives the module's own functions (every
+			// caller is known, every argument resolves) is not a user's callback; what those functions
+			// do is in the summaries of the callers
+			if ts, ok := g.resolveFuncValue(f, p, 0, map[ssa.Value]bool{}); ok && len(ts) > 0 {
+				var ns []string
+				for _, t := range ts {
+					ns = append(ns, fname(t))
+				}
+				o.add(Discharged, fname(f), key, f.Pos(), true, "not a user callback: every value that reaches this parameter is one of the module's own functions (%s)", strings.Join(ns, ", "))
+				continue
+			} else if os.Getenv("JENLINT_DEBUG") != "" {
+				ix := g.fvIdx()
+				fmt.Fprintln(os.Stderr, "W-CALLBACK resolve failed", fname(f), pi, "instances", len(ix.instances[f]), "sites", len(ix.sites[f]), "callersKnown", g.allCallersKnown(f))
+				for _, t := range ix.instances[f] {
+					fmt.Fprintln(os.Stderr, "   instance", t.String(), "sites", len(ix.sites[t]), "known", g.allCallersKnown(t), "valueUse", ix.valueUse[t], ix.valueUse[f])
+				}
+			}
 			refs := *p.Referrers()
 			var uses []ssa.Instruction
 			for _, r := range refs {
@@ -1564,6 +1581,21 @@ func (c *Ctx) viaOnlyFromRegister(entry *ssa.Function, via string) bool {
 // update to memory that existed before the call, no registration, no render of an item, no call
 // through an unresolved function value.
 func (c *Ctx) pureOnPaths(f *ssa.Function) (bool, string) {
+	type res struct {
+		ok  bool
+		why string
+	}
+	key := "pureOnPaths:" + f.String()
+	if v, ok := c.extra(key); ok {
+		r := v.(res)
+		return r.ok, r.why
+	}
+	ok, why := c.pureOnPaths0(f)
+	c.setExtra(key, res{ok, why})
+	return ok, why
+}
+
+func (c *Ctx) pureOnPaths0(f *ssa.Function) (bool, string) {
 	paths, trunc := c.Paths(f, PXConfig{Opaque: c.stdOpaque(), MaxVisits: 3, MaxDepth: 4, MaxIndex: 3, MaxPaths: 60000})
 	if trunc || len(paths) == 0 {
 		return false, "path enumeration truncated"
@@ -1774,4 +1806,71 @@ func reflectWrites(c *Ctx) []string {
 	}
 	sort.Strings(out)
 	return out
+}
+
+// W-NOFORMAT-READERS. C02 relates the formatted output to "what an identically built File renders
+// with NoFormat set": the two modes may differ in the formatting step only. Necessary: nothing that
+// renders the tree (a Code.render / Code.isNull implementation, the import-block printer, the
+// registration function, or anything they reach) reads File.NoFormat; the flag is read where the
+// formatter is gated.
+func init() {
+	register("W-NOFORMAT-READERS", "File.NoFormat is read only where the formatter is gated: nothing reachable from a Code.render / Code.isNull implementation, the import-block printer or the registration function reads it (the two modes differ in the formatting step only)", 1, ruleNoFormatReaders)
+}
+
+func ruleNoFormatReaders(c *Ctx) []Obligation {
+	o := c.newObs("W-NOFORMAT-READERS")
+	g := c.CG()
+	var roots []*ssa.Function
+	roots = append(roots, c.codeImpls(c.renderName())...)
+	roots = append(roots, c.codeImpls(c.nullName())...)
+	if ri := c.role("renderImports"); ri != nil {
+		roots = append(roots, ri)
+	}
+	if reg := c.registerFn(); reg != nil {
+		roots = append(roots, reg)
+	}
+	inTree := g.Reach(roots...)
+	n := 0
+	for _, f := range g.Funcs {
+		if !c.inModule(f) || c.isTestPos(f.Pos()) {
+			continue
+		}
+		for _, b := range f.Blocks {
+			for _, in := range b.Instrs {
+				var isRead bool
+				switch x := in.(type) {
+				case *ssa.FieldAddr:
+					isRead = fieldOf(x) == "jen.File.NoFormat"
+					if isRead {
+						// a store is not a read (a constructor or option setter may set it)
+						onlyStores := x.Referrers() != nil && len(*x.Referrers()) > 0
+						if x.Referrers() != nil {
+							for _, r := range *x.Referrers() {
+								if st, ok := r.(*ssa.Store); !ok || st.Addr != ssa.Value(x) {
+									if _, dbg := r.(*ssa.DebugRef); !dbg {
+										onlyStores = false
+									}
+								}
+							}
+						}
+						if onlyStores {
+							isRead = false
+						}
+					}
+				case *ssa.Field:
+					t := x.X.Type()
+					isRead = types.TypeString(t, shortQual)+"."+fieldName(t, x.Field) == "jen.File.NoFormat"
+				}
+				if !isRead {
+					continue
+				}
+				n++
+				o.req(!inTree[f], fname(f), fmt.Sprintf("read of File.NoFormat #%d", n), in.Pos(), "the function is reachable from the tree renderers / import printer / registration: what is rendered would depend on the formatting mode")
+			}
+		}
+	}
+	if n == 0 {
+		o.undecided("jen.File", "NoFormat", token.NoPos, "anchor lost: no read of File.NoFormat found (the formatter gate)")
+	}
+	return o.list
 }
